@@ -403,10 +403,10 @@ class _MergedCircuit:
             return []
 
         left = [x for x in self.components_by_index[idx] if not c_qs.isdisjoint(x.qubits)]
-        if key_idx >= qubit_idx:
-            # `c` may only join the moment of a key it depends on by merging with that key's holder.
-            left = [x for x in left if (x.mkeys & c.ckeys) or (x.ckeys & c.mkeys)]
-        return left
+        # `c` may only join the moment of a key it depends on by merging with that key's holder.
+        bound_mkeys = {k for k in c.ckeys if self.mkey_indexes[k][-1] == idx}
+        bound_ckeys = {k for k in c.mkeys if self.ckey_indexes[k][-1] == idx}
+        return [x for x in left if bound_mkeys <= x.mkeys and bound_ckeys <= x.ckeys]
 
     def get_cirq_circuit(self, cset: ComponentSet, merged_circuit_op_tag: str) -> cirq.Circuit:
         """Returns the merged circuit.
